@@ -26,6 +26,8 @@ import (
 	sdkmath "cosmossdk.io/math"
 	abci "github.com/cometbft/cometbft/abci/types"
 	sdk "github.com/cosmos/cosmos-sdk/types"
+	authtypes "github.com/cosmos/cosmos-sdk/x/auth/types"
+	govtypes "github.com/cosmos/cosmos-sdk/x/gov/types"
 	stakingtypes "github.com/cosmos/cosmos-sdk/x/staking/types"
 	"github.com/ethereum/go-ethereum/common"
 	ethcrypto "github.com/ethereum/go-ethereum/crypto"
@@ -71,6 +73,12 @@ type world struct {
 	// monitor bookkeeping
 	removed map[int]bool // oracle ids undelegated by governance while their record exists
 	pct     sdkmath.LegacyDec
+	gone    map[int]*goneT // oracles whose record was deleted by a successful unbond: watched for a few more blocks
+}
+
+type goneT struct {
+	blocks int         // blocks seen since the unbond
+	funded sdkmath.Int // coins the harness itself sent to the delegate address since
 }
 
 // cfgT: optional overrides of the randomly chosen parameters (directed scenarios)
@@ -78,6 +86,8 @@ type cfgT struct {
 	mult int64              // 0 = random
 	pct  *sdkmath.LegacyDec // nil = random
 	thr  *sdkmath.Int
+	unb  int64 // > 0: staking UnbondingTime in seconds (set through the real staking params)
+	win  uint64
 }
 
 func (w *world) ctx() sdk.Context { return w.s.Ctx }
@@ -483,6 +493,7 @@ func (w *world) opBond(o, b, e, v int, amt sdkmath.Int) {
 	res := kind(w.tx(func(ctx sdk.Context) error { _, err := w.ms.BondedOracle(ctx, msg); return err }), errTable, "staking")
 	if res == "ok" {
 		delete(w.removed, o)
+		delete(w.gone, o)
 		if !wasProposal {
 			w.violate("bond without governance approval: BondedOracle succeeded for an address not on the proposal-oracle list")
 		}
@@ -553,8 +564,47 @@ func (w *world) opWithdraw(o int) {
 
 func (w *world) opFund(o int, amt sdkmath.Int) {
 	w.s.MintToken(w.daddr(o), sdk.NewCoin(fxtypes.DefaultDenom, amt))
+	if g, ok := w.gone[o]; ok {
+		g.funded = g.funded.Add(amt)
+	}
 	w.out.Count("fund")
 	w.emit(fmt.Sprintf("fund %d %s", o, amt), "ok")
+}
+
+// opTick: the pending block's time moves on by dt seconds; the messages that follow are transactions of a block with that
+// time (they run BEFORE that block's end-blockers, e.g. before staking pays out unbonding entries that mature at that time)
+func (w *world) opTick(dt int64) {
+	w.now = w.now.Add(time.Duration(dt) * time.Second)
+	w.s.Ctx = w.s.Ctx.WithBlockTime(w.now)
+	w.out.Count("tick")
+	w.emit(fmt.Sprintf("tick %d", dt), "ok")
+}
+
+// opUnbondNear: an unbond transaction placed at block time completion-1 / =completion / completion+1 of the oracle's
+// earliest unbonding entry, inside the block (before its end-blocker), then the block itself
+func (w *world) opUnbondNear(o int, off int64) bool {
+	ubds, _ := w.s.App.StakingKeeper.GetUnbondingDelegations(w.ctx(), w.daddr(o), 10)
+	var c *time.Time
+	for _, u := range ubds {
+		for _, e := range u.Entries {
+			if t := e.CompletionTime; c == nil || t.Before(*c) {
+				c = &t
+			}
+		}
+	}
+	if c == nil {
+		return false
+	}
+	dt := int64(c.Sub(w.now)/time.Second) + off
+	if dt < 0 {
+		return false
+	}
+	w.opTick(dt)
+	w.out.Count(fmt.Sprintf("unbond-near:completion%+d", off))
+	w.out.Nontrivial(fmt.Sprintf("unbond-near:completion%+d", off))
+	w.opUnbond(o)
+	w.opBlock(0)
+	return true
 }
 
 func (w *world) opUnbond(o int) {
@@ -569,6 +619,10 @@ func (w *world) opUnbond(o int) {
 			w.violate(fmt.Sprintf("stake not recoverable: UnbondedOracle succeeded and deleted the record while stake %s is still unbonding/delegated from the keyless delegate address (stranded)", rec.DelegateAmount))
 		}
 		delete(w.removed, o)
+		w.gone[o] = &goneT{funded: sdkmath.ZeroInt()}
+		if left := w.balOf(w.daddr(o)); left.IsPositive() {
+			w.violate(fmt.Sprintf("stake not recoverable: UnbondedOracle succeeded but left %s on the keyless delegate address", left))
+		}
 		w.out.Nontrivial("unbond:ok")
 	}
 	w.out.Count("unbond:" + res)
@@ -727,7 +781,7 @@ func (w *world) opBlock(dt int64) {
 		// FinalizeBlock panicked or returned an error: the chain halts here
 		site := "other"
 		switch {
-		case strings.Contains(res, "decoding bech32 failed"):
+		case strings.Contains(res, "decoding bech32 failed"), strings.Contains(res, "empty address string"):
 			site = "SlashOracle:MustAccAddressFromBech32"
 		case strings.Contains(res, "covert power diff to dec err"):
 			site = "isNeedOracleSetRequest:LegacyNewDecFromStr"
@@ -752,6 +806,25 @@ func (w *world) opBlock(dt int64) {
 		return
 	}
 	w.out.Count("block:ok")
+	// a few blocks after a successful unbond: nothing of the stake may turn up at, or still be bound from, the delegate
+	// address of the deleted record (nobody holds a key for it)
+	for _, id := range sortedIDs(w.gone) {
+		g := w.gone[id]
+		g.blocks++
+		if _, found := w.k.GetOracle(w.ctx(), w.oracles[id].AccAddress()); !found {
+			ubds, _ := w.s.App.StakingKeeper.GetUnbondingDelegations(w.ctx(), w.daddr(id), 10)
+			dels, _ := w.s.App.StakingKeeper.GetDelegatorDelegations(w.ctx(), w.daddr(id), 10)
+			held := w.balOf(w.daddr(id))
+			if len(ubds) > 0 || len(dels) > 0 || held.GT(g.funded) {
+				w.violate(fmt.Sprintf("stake not recoverable: %d block(s) after a successful UnbondedOracle deleted the record of oracle %d its keyless delegate address holds %s (harness funded %s), %d unbonding delegation(s), %d delegation(s): stranded", g.blocks, id, held, g.funded, len(ubds), len(dels)))
+				delete(w.gone, id)
+				continue
+			}
+		}
+		if g.blocks >= 4 {
+			delete(w.gone, id)
+		}
+	}
 	// slashed only for a missed signing / confirmer never slashed
 	for id, o := range sn.online {
 		now, found := w.k.GetOracle(w.ctx(), o.GetOracle())
@@ -780,6 +853,15 @@ func (w *world) opBlock(dt int64) {
 	w.emit(op, "ok")
 }
 
+func sortedIDs(m map[int]*goneT) []int {
+	var ids []int
+	for id := range m {
+		ids = append(ids, id)
+	}
+	sort.Ints(ids)
+	return ids
+}
+
 func (w *world) opValSlash(v int, num, den int64) {
 	ctx := w.ctx()
 	val, err := w.s.App.StakingKeeper.GetValidator(ctx, w.vals[v])
@@ -806,10 +888,37 @@ func (w *world) opValSlash(v int, num, den int64) {
 func newWorld(t *testing.T, out *hx.Out, rng *rand.Rand, mode string, cfg cfgT) *world {
 	nval := 2 + rng.Intn(2)
 	s := hx.NewSuite(t, nval)
-	w := &world{t: t, s: s, k: s.App.EthKeeper, out: out, rng: rng, mode: mode, nval: nval, now: baseTime, removed: map[int]bool{}}
+	w := &world{t: t, s: s, k: s.App.EthKeeper, out: out, rng: rng, mode: mode, nval: nval, now: baseTime, removed: map[int]bool{}, gone: map[int]*goneT{}}
 	w.ms = crosschainkeeper.NewMsgServerImpl(w.k)
 	w.commitAt(w.now)
 	ctx := w.ctx()
+	// some worlds run with a staking unbonding time of a few seconds (shorter than the signed window in wall-clock terms):
+	// an oracle can then leave completely while objects it is liable for are still inside the window
+	unbSec := cfg.unb
+	if unbSec == 0 && rng.Intn(4) == 0 {
+		unbSec = int64(8 + rng.Intn(10))
+	}
+	if unbSec > 0 {
+		sp, err := s.App.StakingKeeper.GetParams(ctx)
+		if err != nil {
+			t.Fatal(err)
+		}
+		sp.UnbondingTime = time.Duration(unbSec) * time.Second
+		msg := &stakingtypes.MsgUpdateParams{Authority: authtypes.NewModuleAddress(govtypes.ModuleName).String(), Params: sp}
+		if r := hx.Try(func() error {
+			hd := s.App.MsgServiceRouter().Handler(msg)
+			if hd == nil {
+				return fmt.Errorf("unroutable")
+			}
+			_, err := hd(ctx, msg)
+			return err
+		}); r != "ok" {
+			if err := s.App.StakingKeeper.SetParams(ctx, sp); err != nil {
+				t.Fatal(err)
+			}
+		}
+		out.Count("world:short-unbonding-time")
+	}
 	ut, err := s.App.StakingKeeper.UnbondingTime(ctx)
 	if err != nil {
 		t.Fatal(err)
@@ -819,6 +928,9 @@ func newWorld(t *testing.T, out *hx.Out, rng *rand.Rand, mode string, cfg cfgT) 
 	// params (through the keeper's validated setter, as MsgUpdateParams does)
 	p := w.k.GetParams(ctx)
 	w.window = uint64(2 + rng.Intn(4))
+	if cfg.win > 0 {
+		w.window = cfg.win
+	}
 	p.SignedWindow = w.window
 	// the last two give oracles whose power (stake / powerReduction) is 0, or 0 until they top up
 	thrChoices := []sdkmath.Int{w.pr.MulRaw(100), w.pr.MulRaw(10), w.pr.MulRaw(100).AddRaw(7), w.pr.MulRaw(3).QuoRaw(2), w.pr.MulRaw(100), w.pr.MulRaw(10), w.pr.QuoRaw(2), w.pr.SubRaw(1)}
@@ -1054,8 +1166,17 @@ func (w *world) sequence(length int) {
 				}
 			}
 			w.opAdd(o, amt)
-		case r < 64:
+		case r < 61:
 			w.opUnbond(o)
+		case r < 64:
+			ids := []int{}
+			for id := range w.removed {
+				ids = append(ids, id)
+			}
+			sort.Ints(ids)
+			if len(ids) == 0 || !w.opUnbondNear(ids[rng.Intn(len(ids))], int64(rng.Intn(3))-1) {
+				w.opUnbond(o)
+			}
 		case r < 69:
 			w.opRedel(o, rng.Intn(len(w.vals)))
 		case r < 74:
@@ -1120,7 +1241,7 @@ func (w *world) lifecycle(variant int) {
 	w.opBond(0, 0, 0, 0, max.AddRaw(1))
 	w.opBond(0, 0, 0, 0, max.Add(w.thr))
 	for i := 0; i < n; i++ {
-		if variant%6 == 5 && i == n-1 {
+		if variant%8 == 5 && i == n-1 {
 			continue // the late joiner
 		}
 		w.opBond(i, i, i, i%w.nval, w.thr)
@@ -1130,12 +1251,48 @@ func (w *world) lifecycle(variant int) {
 		dil[i] = true
 	}
 	w.opAdd(1, max.Sub(w.thr).AddRaw(1)) // one above the maximum in total
+	if variant%8 == 7 {
+		delete(dil, 0) // oracle 0 never confirms anything, not even the first oracle set it is a member of
+	}
 	w.opBlock(5)
 	w.confirmRound(dil, 1)
-	if (variant/6)%2 == 1 { // the latest oracle set is observed on the external chain, then nothing changes for a while
+	if (variant/8)%2 == 1 { // the latest oracle set is observed on the external chain, then nothing changes for a while
 		w.opObserve(w.k.GetLatestOracleSetNonce(w.ctx()))
 	}
-	switch variant % 6 {
+	switch variant % 8 {
+	case 6: // unbond transactions around the maturity of the unbonding entry: completion-1, =completion (inside the block,
+		// before the staking end-blocker pays out), the block after
+		w.opGov(all[1:])
+		w.opBlock(5)
+		w.confirmRound(dil, 1)
+		w.opUnbondNear(0, -1)
+		if !w.dead {
+			w.confirmRound(dil, 1)
+			if !w.opUnbondNear(0, 0) { // entry already gone? then a plain attempt
+				w.opUnbond(0)
+			}
+		}
+		for i := 0; i < 3 && !w.dead; i++ {
+			w.opTick(1)
+			w.opUnbond(0)
+			w.opBlock(0)
+			w.confirmRound(dil, 1)
+		}
+	case 7: // an oracle that never confirms leaves COMPLETELY (removed, undelegation completes, record deleted) while the
+		// oracle set it is a member of, and a batch / bridge call it is liable for, are still inside the signed window
+		delete(dil, 0)
+		w.opMkBatch()
+		w.opMkCall()
+		w.opGov(all[1:])
+		w.opBlock(w.unb + 1)
+		w.confirmRound(dil, 1)
+		w.opUnbond(0)
+		for i := uint64(0); i < w.window+3 && !w.dead; i++ {
+			w.opBlock(5)
+			if !w.dead {
+				w.confirmRound(dil, 1)
+			}
+		}
 	case 5: // late joiner: objects created before an oracle joined age unconfirmed by it; it confirms what was created after
 		// (the last oracle account has not bonded yet: see the caller)
 		w.opMkBatch()
@@ -1173,7 +1330,7 @@ func (w *world) lifecycle(variant int) {
 		w.opMkCall()
 		w.confirmRound(dil, 1)
 		w.opEditB(0, n)
-		if (variant/6)%2 == 0 {
+		if (variant/8)%2 == 0 {
 			w.opEditB(1, n+1)
 		}
 		for i := uint64(0); i < w.window+3 && !w.dead; i++ {
@@ -1190,7 +1347,7 @@ func (w *world) lifecycle(variant int) {
 		w.opWithdraw(0)
 		w.opBlock(5)
 		w.confirmRound(dil, 1)
-		if (variant/6)%2 == 0 {
+		if (variant/8)%2 == 0 {
 			w.opUnbond(0)
 		}
 		w.opBlock(w.unb + 1)
@@ -1225,7 +1382,7 @@ func (w *world) lifecycle(variant int) {
 		w.opGov(all[1:])
 		w.opBlock(w.unb + 1)
 		w.confirmRound(dil, 1)
-		if (variant/6)%2 == 0 {
+		if (variant/8)%2 == 0 {
 			w.opGov(all)
 			w.opAdd(0, w.thr)
 			w.opBlock(5)
@@ -1242,8 +1399,8 @@ func runAll(t *testing.T, mode string) {
 	rng := rand.New(rand.NewSource(seed))
 	out := hx.NewOut()
 	defer out.Close("correspondence: real eth crosschain module + real staking/bank (FinalizeBlock per `block`, block time moved past the unbonding period) vs Lean model, canonical registry/stake/slashing state after every op; monitors: registry one-to-one, bond bounds, penalty once, stake recoverable (dry-run UnbondedOracle after maturity), slashed only for missed signing, FinalizeBlock never panics. non-trivial = distinct (op, outcome) classes")
-	nseq := hx.N(32, 400)
-	const nLife = 12
+	nseq := hx.N(36, 400)
+	const nLife = 16
 	length := 28
 	if hx.Tier() == "thorough" {
 		length = 45
@@ -1253,11 +1410,17 @@ func runAll(t *testing.T, mode string) {
 	}
 	for i := 0; i < nseq; i++ {
 		cfg := cfgT{}
-		if i < nLife && i%6 == 3 {
+		if i < nLife && i%8 == 3 {
 			cfg.mult = 10
-			if i >= 6 {
+			if i >= 8 {
 				five := sdkmath.LegacyNewDecWithPrec(5, 2)
 				cfg.pct = &five
+			}
+		}
+		if i < nLife && i%8 == 7 {
+			cfg.win = 4
+			if i >= 8 {
+				cfg.unb = 10
 			}
 		}
 		w := newWorld(t, out, rng, mode, cfg)
